@@ -1585,7 +1585,11 @@ func (c *compiler) compileCallInternal(
 			return err
 		}
 		if internal {
-			switch len(c.codes) - pc {
+			n := len(c.codes) - pc
+			if n == 3 && c.codes[pc].v.([3]int)[1] > 0 {
+				n = 0 // the argument owns variables, so it needs its scope
+			}
+			switch n {
 			case 2: // optimize identity argument (opscope, opret)
 				j := len(c.codes) - 3
 				c.codes[j] = &code{op: opload, v: v}
